@@ -244,6 +244,25 @@ def handle (op : String) (fs : List (String × String)) : String :=
     match parseHead fs with
     | some h => "ok:" ++ toHex (encodeHead h)
     | none => "bad-case"
+  else if op == "metrics.headrt" then
+    -- the property itself: Read (Encode info) = info, timestamps to the second (the 1904 epoch and
+    -- the unset time both read back as the unset time)
+    match parseHead fs with
+    | some h =>
+      let i16 (x : Int) : Bool := decide (-32768 ≤ x ∧ x ≤ 32767)
+      let tOk (t : GoTime) : Bool := decide (-4611686018427387904 ≤ t.sec ∧ t.sec ≤ 4611686018427387904)
+      let img (t : GoTime) : GoTime :=
+        if t.isZero || t.sec == Gen.metricsZeroTime then GoTime.zero else ⟨t.sec, 0⟩
+      if decide (h.fontRevision < 4294967296) && decide (h.unitsPerEm < 65536) && i16 h.bbox.llx &&
+         i16 h.bbox.lly && i16 h.bbox.urx && i16 h.bbox.ury && decide (h.lowestRecPPEM < 65536) &&
+         i16 h.locaFormat && tOk h.created && tOk h.modified
+      then "ok:" ++ showHead { h with created := img h.created, modified := img h.modified }
+      else showWith (decodeHead (encodeHead h)) showHead   -- outside the domain: what the model predicts
+    | none => "bad-case"
+  else if op == "metrics.nodisturb" then
+    -- results of earlier Encode/Decode calls are not disturbed by later calls (judged by the harness
+    -- on the real code; a pure function has nothing to disturb)
+    "ok"
   else if op == "metrics.headdec" then
     match getHex fs "b" with
     | some b => showWith (decodeHead b) showHead
